@@ -5,3 +5,7 @@ import GoFlags.Props.C15
 #print axioms GoFlags.C15.global_section_first
 #print axioms GoFlags.C15.map_rendering_order_independent
 #print axioms GoFlags.C15.quote_flags_commute
+#print axioms GoFlags.C15.facts_map_ranges
+#print axioms GoFlags.C15.facts_reflect_map_iterations
+#print axioms GoFlags.C15.facts_sort_calls
+#print axioms GoFlags.C15.facts_no_goroutines
